@@ -250,17 +250,23 @@ func (c *connectClient) NewConn(
 ) StreamingClientConn {
 	// For unary calls the header map belongs to the caller's Request, which may
 	// be reused: never resend the timeout of an earlier call.
-	header.Del(connectHeaderTimeout)
-	if deadline, ok := ctx.Deadline(); ok {
-		millis := int64(time.Until(deadline) / time.Millisecond)
-		if millis > 0 {
-			encoded := strconv.FormatInt(millis, 10 /* base */)
-			if len(encoded) <= 10 {
-				header[connectHeaderTimeout] = []string{encoded}
-			} // else effectively unbounded
+	setTimeout := func() {
+		header.Del(connectHeaderTimeout)
+		if deadline, ok := ctx.Deadline(); ok {
+			millis := int64(time.Until(deadline) / time.Millisecond)
+			if millis > 0 {
+				encoded := strconv.FormatInt(millis, 10 /* base */)
+				if len(encoded) <= 10 {
+					header[connectHeaderTimeout] = []string{encoded}
+				} // else effectively unbounded
+			}
 		}
 	}
+	setTimeout()
 	duplexCall := newDuplexHTTPCall(ctx, c.HTTPClient, c.URL, spec, header)
+	// A stream may be used some time after it was created: the timeout that
+	// goes out is what's left when the request is sent.
+	duplexCall.onRequestSend = setTimeout
 	var conn StreamingClientConn
 	if spec.StreamType == StreamTypeUnary {
 		unaryConn := &connectUnaryClientConn{
